@@ -17,7 +17,12 @@ finalize_*), then every mutation of the property's catalogue is applied.  For ea
               isolates the interpreter logic from the EC arithmetic
 
   violation      impl = ACCEPT and not authorised (soundness), or a library-built unmutated spend is not
-                 accepted (completeness)
+                 accepted (completeness), or verify_input modified the transaction (direct predicate `nomutate`)
+
+The whole case — transaction, spent outputs, every scriptSig and every witness item list — is snapshotted as plain
+data BEFORE the implementation runs; the request line, the model's spend line and the oracle's specification requests
+are built from that snapshot, never from the objects the implementation has had in its hands.  After the run the
+objects are described again and compared with the snapshot (`nomutate`).
   disagreement   impl != model
 """
 import hashlib
@@ -46,7 +51,10 @@ ANCHORS = [
     ("buidl/tx.py", "Tx.finalize_p2tr_multisig"),
 ]
 RULE = ("spends are generated from one PRNG seeded by VERIF_SEED (shape, key subset, m-of-n with 1 <= m <= n <= 5, "
-        "1..3 inputs/outputs, amounts, tree shape), every spend goes through the whole mutation catalogue; plus the "
+        "1..3 inputs/outputs, amounts, tree shape), every spend goes through the whole mutation catalogue (committed "
+        "fields, signatures, keys and scripts, small-integer opcodes around a nested redeem script, annexes added / "
+        "removed / replaced after signing and signed over); every case is snapshotted before the implementation runs and "
+        "compared with the objects afterwards (verify_input does not modify the transaction); plus the "
         "fixed witnesses of F06a-F06g; a case is non-trivial when it is not the unmutated spend; distinct = distinct "
         "(scriptSig, scriptPubKey, witness, transaction digest) tuples")
 TRUSTED = ["signature verification, key / signature / control-block parsing and the signature hash enter the theorems "
@@ -300,6 +308,9 @@ def impl_line(line):
 def eval_pred(kind, case):
     """predicate cases: a request line (re-verified), or a job (the spend is built and signed again through the
     library: sign_* / get_sig_* / finalize_*)"""
+    if case.get("pred") == "nomutate":
+        d = mutation_diff(case["line"])
+        return d is None, d or "unchanged", "unchanged"
     if "job" in case:
         seed, i, shape, layout, ht = case["job"]
         _patch()
@@ -324,6 +335,45 @@ def run_impl(tx, idx):
         _S["rec"] = Recorder()     # throw-away recorder for calls outside run_impl (sign_* verify internally)
     _S["last_rec"] = rec
     return ("ACCEPT" if ok else REJECT), rec.tables()
+
+
+def tx_bytes(tx):
+    """the serialisation (witness data included when the transaction is flagged segwit), or how it fails"""
+    try:
+        return tx.serialize()
+    except Exception as e:
+        return "raise " + type(e).__name__
+
+
+def desc_diff(before, after, ser0=None, ser1=None):
+    """None when the two plain-data descriptions (and serialisations) agree, else what differs"""
+    out = []
+    for k in ("version", "locktime", "segwit"):
+        if before[k] != after[k]:
+            out.append(k)
+    if len(before["ins"]) != len(after["ins"]) or len(before["outs"]) != len(after["outs"]):
+        out.append("number of inputs/outputs")
+    else:
+        for j, (a, b) in enumerate(zip(before["ins"], after["ins"])):
+            for k in ("prev_tx", "prev_index", "script_sig", "sequence", "witness", "value", "spk"):
+                if a[k] != b[k]:
+                    out.append(f"in{j}.{k}" + (f" {len(a[k])}->{len(b[k])} items" if k == "witness" else ""))
+        for j, (a, b) in enumerate(zip(before["outs"], after["outs"])):
+            if a != b:
+                out.append(f"out{j}")
+    if not out and ser0 != ser1:
+        out.append("serialisation")
+    return ", ".join(out) if out else None
+
+
+def mutation_diff(line):
+    """direct predicate `nomutate` on a recorded case: rebuild the transaction, snapshot it, run verify_input,
+    describe it again -> None (unchanged) | what changed"""
+    t = line.split(" ")
+    tx = T.p_tx(T.Toks(t, 2))
+    before, ser0 = tx_desc(tx), tx_bytes(tx)
+    run_impl(tx, int(t[1]))
+    return desc_diff(before, tx_desc(tx), ser0, tx_bytes(tx))
 
 
 # --------------------------------------------------------------------------------- authorisation predicate
@@ -648,6 +698,13 @@ def build_spend(rng, shape, layout=None, ht=None):
         if shape == "p2tr_key":
             tweaked = key.tweaked_key(merkle_root)
             ok = tx.sign_p2tr_keypath(idx, tweaked, hash_type=tht)
+
+            def resign(t, annex):
+                """sign input idx of t over `annex` (key path) through the library: witness [sig, annex]"""
+                t.tx_ins[idx].witness = Witness([b"", annex])
+                sig = t.get_sig_taproot(idx, tweaked, ext_flag=0, hash_type=tht)
+                t.tx_ins[idx].witness = Witness([sig, annex])
+            sp["_resign"] = resign
         else:
             li = 0 if (n_in, n_out, idx) == (1, 1, 0) else rng.randrange(len(leaves))
             lf, info = leaves[li], leafinfo[li]
@@ -673,6 +730,16 @@ def build_spend(rng, shape, layout=None, ht=None):
                     sig = tx.get_sig_taproot(idx, by_x[x], ext_flag=1, hash_type=tht) if x in chosen else b""
                     ti.witness.items.insert(0, sig)
             ok = tx.verify_input(idx)
+
+            def resign(t, annex, info=info, cb=cb, by_x=by_x, chosen=chosen):
+                """sign input idx of t over `annex` (script path): witness [sigs..., script, control block, annex]"""
+                tail = [info["script"].raw_serialize(), cb.serialize(), annex]
+                t.tx_ins[idx].witness = Witness(list(tail))
+                t.tx_ins[idx].tap_script = info["script"]
+                sigs = [t.get_sig_taproot(idx, by_x[x], ext_flag=1, hash_type=tht) if x in chosen else b""
+                        for x in info["keys"]]
+                t.tx_ins[idx].witness = Witness(sigs[::-1] + tail)
+            sp["_resign"] = resign
     sp["built_ok"] = bool(ok is True)
     return sp, tx, idx
 
@@ -805,6 +872,36 @@ def mutations(rng, sp, tx, idx, foreign):
         yield mk("junk_then_redeem", ss2=[b"\x01", redeem], wit2=[] if shape != "p2sh_ms" else None)   # F06e
         yield mk("true_then_redeem_nop", ss2=[0x51, redeem, 0x61])
         yield mk("redeem_twice", ss2=ss + [redeem])
+        # small-integer opcodes (OP_0, OP_1NEGATE, OP_1, OP_16: ints, not data pushes) around the public redeem
+        # script, without witness and with the attacker's own witness
+        nested = shape in ("p2sh_p2wpkh", "p2sh_p2wsh_ms")
+        no_wit = [] if nested else None
+        for op in (0x00, 0x4F, 0x51, 0x60):
+            yield mk(f"smallint_{op:02x}_then_redeem", ss2=[op, redeem], wit2=no_wit)
+            yield mk(f"redeem_then_smallint_{op:02x}", ss2=[redeem, op], wit2=no_wit)
+        yield mk("smallints_two_then_redeem", ss2=[0x51, 0x51, redeem], wit2=no_wit)
+        yield mk("smallints_mixed_then_redeem", ss2=[0x00, 0x4F, 0x60, 0x52, redeem], wit2=no_wit)
+        yield mk("smallint_and_junk_then_redeem", ss2=[0x51, b"\x01", redeem], wit2=no_wit)
+        yield mk("smallint_around_redeem", ss2=[0x51, redeem, 0x51], wit2=no_wit)
+        if nested:
+            yield mk("smallint_then_redeem_keep_witness", ss2=[0x51, redeem])
+            if shape == "p2sh_p2wpkh":
+                try:      # the attacker's own key and signature in the witness
+                    att_w = [tx.get_sig_segwit(idx, other, redeem_script=other.point.p2sh_p2wpkh_redeem_script()),
+                             other.point.sec()]
+                except Exception:
+                    att_w = [foreign(tx), other.point.sec()]
+            else:
+                from buidl.script import WitnessScript as _WS
+                a_ws = _WS([0x51, other.point.sec(), 0x51, 0xAE])
+                try:
+                    att_w = [b"", tx.get_sig_segwit(idx, other, redeem_script=sp.get("redeem"), witness_script=a_ws),
+                             a_ws.raw_serialize()]
+                except Exception:
+                    att_w = [b"", foreign(tx), a_ws.raw_serialize()]
+            for op in (0x00, 0x4F, 0x51, 0x60):
+                yield mk(f"smallint_{op:02x}_then_redeem_attacker_witness", ss2=[op, redeem], wit2=att_w)
+            yield mk("smallints_two_then_redeem_attacker_witness", ss2=[0x51, 0x60, redeem], wit2=att_w)
         att = [0x51, other.point.sec(), 0x51, 0xAE]
         from buidl.script import RedeemScript
         att_rs = RedeemScript(att)
@@ -852,6 +949,7 @@ def mutations(rng, sp, tx, idx, foreign):
         yield mk("annex_only", wit2=[b"\x50"])                              # F06b
         yield mk("annex_only_2", wit2=[b"\x50\x01", b"\x50\x02"])
         yield mk("annex_appended", wit2=wit + [b"\x50\xaa"])
+        yield mk("annex_appended_bare", wit2=wit + [b"\x50"])
         yield mk("empty_item", wit2=[b""])
         if len(wit) >= 2 and sp.get("leaf"):
             script, cb = wit[-2], wit[-1]
@@ -903,11 +1001,15 @@ def slim(sp):
 
 
 def _row(sp, shape, name, t, j, base=False):
-    """run the implementation on input j of t (with recording) and snapshot everything the oracle needs"""
-    impl, tables = run_impl(t, j)
+    """snapshot the whole case as plain data, THEN run the implementation on input j of t (with recording); the
+    request line, the model line and everything the oracle needs come from the snapshot; afterwards the objects are
+    described again: `changed` says what verify_input modified (None: nothing)"""
     desc = tx_desc(t)
-    r = {"name": name, "shape": shape, "idx": j, "line": request_line(desc, j), "mline": spend_line(t, j),
-         "impl": impl, "auth": None, "tables": tables, "base": base, "built_ok": sp["built_ok"]}
+    line, mline, ser0 = request_line(desc, j), spend_line(t, j), tx_bytes(t)
+    impl, tables = run_impl(t, j)
+    r = {"name": name, "shape": shape, "idx": j, "line": line, "mline": mline,
+         "impl": impl, "auth": None, "tables": tables, "base": base, "built_ok": sp["built_ok"],
+         "changed": desc_diff(desc, tx_desc(t), ser0, tx_bytes(t))}
     if impl == "ACCEPT" or base:
         els = elements_of(desc, j)
         rec = _S["last_rec"]
@@ -953,9 +1055,37 @@ def _work(job):
             {"name": "build", "shape": shape, "idx": 0, "line": f"build {shape} {i} {layout} {ht}", "mline": "",
              "impl": "raise " + type(e).__name__, "auth": True, "tables": "", "base": True, "built_ok": False}]}
     cases = list(mutations(rng, sp, tx, idx, foreign_maker(sp, idx)))     # clones, made before any in-place edit
+    annexed = []
+    if sp.get("_resign"):
+        # annex variants in both directions (BIP341 commits to the annex): signed over an annex and kept (valid),
+        # the annex removed / replaced / doubled after signing over it
+        ann_a, ann_b = b"\x50" + bytes([rng.randrange(256)]) * rng.randrange(0, 4), b"\x50\xbb\x01"
+        if ann_a == ann_b:
+            ann_b = b"\x50\xbc"
+        try:
+            t_a = clone_tx(tx)
+            sp["_resign"](t_a, ann_a)
+            w_a = list(t_a.tx_ins[idx].witness.items)
+            annexed.append(("annex_signed_kept", t_a, True))
+            for nm, w2 in (("annex_removed_after_signing", w_a[:-1]), ("annex_replaced_after_signing", w_a[:-1] + [ann_b]),
+                           ("annex_second_appended", w_a + [ann_b]), ("annex_same_twice", w_a + [ann_a])):
+                t2 = clone_tx(t_a)
+                t2.tx_ins[idx].witness = type(t_a.tx_ins[idx].witness)(w2)
+                annexed.append((nm, t2, False))
+            t_b = clone_tx(tx)
+            sp["_resign"](t_b, ann_b)
+            annexed.append(("annex_other_signed_kept", t_b, True))
+        except MachineryError:
+            raise
+        except Exception as e:
+            annexed.append(("annex_signing_raised_" + type(e).__name__, clone_tx(tx), True))
     rows = [_row(sp, shape, "unmutated", tx, idx, base=True)]
     for name, t in cases:
         rows.append(_row(sp, shape, name, t, idx))
+    for name, t, valid in annexed:
+        rows.append(_row(sp, shape, name, t, idx, base=valid))
+        if valid:
+            rows.append(_row(sp, shape, name + ":again", t, idx, base=True))    # the same objects once more
     # ---- object reuse: the SAME Tx / Script / Witness objects verified again and again
     rows.append(_row(sp, shape, "reuse:again", tx, idx, base=True))
     edits = [e for e in field_edits(tx) if e[0] != f"in{idx}.spk"]
@@ -1096,6 +1226,8 @@ def run(ctx):
             if cov_seen.get(ck, 0) < 2:
                 cov_seen[ck] = cov_seen.get(ck, 0) + 1
                 rec.cov_pred(r["shape"], {"line": r["line"], "impl": r["impl"]})
+                if r["impl"] != "ACCEPT" and len(rec.cov_preds.get("nomutate", [])) < 4:
+                    rec.cov_pred("nomutate", {"pred": "nomutate", "line": r["line"]})     # cheap rejections only
         mut = r["name"].split(":")[0].rstrip("0123456789") if not r["name"].startswith("field:") else "field"
         case = {"line": r["line"], "mutation": r["name"], "shape": r["shape"], "idx": r["idx"]}
         ccase = {"request": r["line"], "mutation": r["name"], "shape": r["shape"], "idx": r["idx"]}   # not replayed by
@@ -1103,6 +1235,12 @@ def run(ctx):
         if r["tables"] == "":
             rec.violation("complete:" + r["shape"], case, r["impl"], "ACCEPT", note="the library could not build the spend")
             continue
+        if r.get("changed"):
+            rec.violation("nomutate:" + r["shape"], dict(case, pred="nomutate"), "modified: " + r["changed"], "unchanged",
+                          note=f"verify_input modified the transaction it verifies ({r['name']}, outcome {r['impl']})")
+        else:
+            rec.ok("nomutate", None, nontrivial=False)
+            rec.count(f"nomutate:{r['impl']}")
         model = next(answers)
         if model == "FUEL":
             raise MachineryError("model out of fuel: " + r["mline"][:200])
@@ -1136,6 +1274,8 @@ def replay(ctx, v):
     line = case.get("line", case.get("request", ""))
     if not line.startswith("verify_tx "):
         return True
+    if v["kind"].startswith("nomutate:"):
+        return mutation_diff(line) is not None
     impl = impl_line(line)
     if v["kind"].startswith(("sound:", "complete:", "regression:")) or "tables" not in case:
         return impl == v["impl"] if v["kind"].startswith(("sound:", "complete:")) else impl == "ACCEPT"
